@@ -689,7 +689,14 @@ impl TextResource {
                     None
                 }
             })),
-            PositionMode::Both => Box::new(self.positionindex.keys()),
+            PositionMode::Both => Box::new(self.positionindex.iter().filter_map(|(k, positem)| {
+                //milestones are also in the index but are no position where a text selection begins or ends
+                if !positem.begin2end.is_empty() || !positem.end2begin.is_empty() {
+                    Some(k)
+                } else {
+                    None
+                }
+            })),
         }
     }
 
@@ -730,7 +737,13 @@ impl TextResource {
                 self.positionindex
                     .0
                     .range((Included(&begin), Excluded(&end)))
-                    .map(|(k, _)| k),
+                    .filter_map(|(k, positem)| {
+                        if !positem.begin2end.is_empty() || !positem.end2begin.is_empty() {
+                            Some(k)
+                        } else {
+                            None
+                        }
+                    }),
             ),
         }
     }
